@@ -47,6 +47,14 @@ def generate(seed, tier):
             if label in ('c01', 'c02', 'c03', 'c12') and i % 3 == 1:
                 cases.append({'src': label, 'c': c, 'b': 'wrapped'})
     sample(c01, 'c01')
+    # kept whole: the size limit against malformed batches (the halves must refuse for the same reason, to the letter)
+    seen1 = {json.dumps(x['c'], sort_keys=True, default=repr) for x in cases if x['src'] == 'c01'}
+    for c in c01.targeted():
+        cc = strip(c)
+        k = json.dumps(cc, sort_keys=True, default=repr)
+        if k not in seen1:
+            seen1.add(k)
+            cases.append({'src': 'c01', 'c': cc})
     sample(c02, 'c02')
     sample(c03, 'c03')
     sample(c12, 'c12')
